@@ -115,6 +115,13 @@ class ContinuousCarver(BaseCarver):
             not not_numeric
         ), " - [ContinuousCarver] y must be a continuous Series (int or float, not object)"
 
+        # same check for the target of the development sample
+        if y_dev is not None:
+            not_numeric_dev = str in y_dev.apply(type).unique()
+            assert (
+                not not_numeric_dev
+            ), " - [ContinuousCarver] y_dev must be a continuous Series (int or float, not object)"
+
         return x_copy, x_dev_copy
 
     def _aggregator(
